@@ -332,12 +332,17 @@ def minimise(mod, case, vclass, known, budget_s=90, violation=None):
     return best, steps
 
 
-def run_isolated(mod, case, limit=90, scale=1):
-    """Execute one case in a forked child (used for replays and hang confirmation)."""
+def run_isolated(mod, case, limit=90, scale=1, perturb=0):
+    """Execute one case in a forked child (used for replays and hang confirmation).  perturb > 0: the
+    child first allocates (and keeps) a deterministic amount of junk, so that repeated attempts meet
+    different allocator states (address reuse is the one thing the simulator does not own)."""
     ctx = multiprocessing.get_context('fork')
     parent, child = ctx.Pipe()
 
     def work():
+        junk = [bytearray(37 * (i % 13 + 1)) for i in range(perturb * 997)]
+        junk2 = [[i] for i in range(perturb * 211)]
+        del junk[::3]
         hang_scale[0] = scale
         build.activate()
         if hasattr(mod, 'worker_init'):
@@ -441,8 +446,8 @@ def replay(mod, path):
     # allocator: address reuse); such a replay is attempted several times and counts as reproduced if any
     # attempt shows the recorded class
     attempts = max(1, int(getattr(mod, 'REPLAY_ATTEMPTS', 1)))
-    for _ in range(attempts):
-        out = run_isolated(mod, doc['case'])
+    for attempt in range(attempts):
+        out = run_isolated(mod, doc['case'], perturb=attempt)
         if out.get('harness_error'):
             break
         real, _kn = violation_classes(out, mod.PROPERTY, known)
@@ -584,7 +589,7 @@ def run_check(mod, tier, seed, runs=None, jobs=None, wall=None, selfcheck=True, 
             small, steps = minimise(mod, case, vclass, known, budget_s=plan.get('shrink_s', 60), violation=v)
             same = []
             for _attempt in range(max(1, int(getattr(mod, 'REPLAY_ATTEMPTS', 1)))):
-                out = run_isolated(mod, small, limit=60)
+                out = run_isolated(mod, small, limit=60, perturb=_attempt)
                 real, _ = violation_classes(out, prop, known)
                 same = [x for x in real if x['class'] == vclass]
                 if same:
